@@ -2,7 +2,7 @@ package main
 
 func init() {
 	props["C02"] = &propImpl{files: []string{"h_lib.go", "h_pipe.go"}, run: runC02}
-	props["C04"] = &propImpl{files: []string{"h_lib.go", "h_pipe.go"}, run: runC04}
+	props["C04"] = &propImpl{files: []string{"h_lib.go", "h_pipe.go", "h_units.go", "h_step.go"}, run: runC04}
 	props["C06"] = &propImpl{files: []string{"h_lib.go", "h_pipe.go"}, run: runC06}
 }
 
@@ -73,6 +73,8 @@ func runC04(c *Check) error {
 	K0, K1, K2, vers := pipeTier(c)
 	c.Bounds = append(c.Bounds, shortBounds(K0, K1, K2, vers)...)
 	c.Assumptions = append(c.Assumptions, stdAssumptions...)
+	unitJobsC04(c)
+	stepJobs(c)
 	c.ExploreNeeds(shortShapes("H_C04", K0, K1, K2, vers, 900_000), nil)
 	c.TriviaEmpty = true
 	return corpusShapesLex(c, "H_C04", tierEvery(c, 6, 2), tierEvery(c, 4, 1), false, 3_000_000)
